@@ -11,3 +11,7 @@ CONSTANTS
   LeastBound = 0
 INVARIANTS TypeOK TrClosureLaw TrLaws UfClosureLaw UfLaws Emit
 CHECK_DEADLOCK FALSE
+\* tlc -simulate num=K -depth 31 -seed S: SimNext draws ONE random successor per state (RandomElement), so a
+\* behaviour is one random history of 30 operations and a vector is printed for each of its states of length
+\* >= EmitMin.  Keep the *ClosureLaw invariants before the *Laws: comparing rel with its definition makes TLC
+\* normalise the lazily built set, which the membership tests of the other invariants then profit from.
